@@ -85,7 +85,22 @@ func c16Gen(r *Rng, id int) c16Hist {
 		h.Names = append(append(h.Names, assets...), c16CollideQueries...)
 	}
 	h.Denoms = c16Denoms
+	// a feeder usually re-feeds the SAME value block after block (a stable price): a quarter of the feeds repeat an earlier
+	// (asset, source, price) unchanged; a write skipped "because nothing changed" would leave the old timestamp to expire
+	var prev []c16Feed
+	feed0 := func() c16Feed { return c16Feed{} }
 	feed := func() c16Feed {
+		if len(prev) > 0 && r.Chance(25) {
+			return prev[r.Intn(len(prev))]
+		}
+		f := feed0()
+		prev = append(prev, f)
+		if len(prev) > 12 {
+			prev = prev[1:]
+		}
+		return f
+	}
+	feed0 = func() c16Feed {
 		f := c16Feed{Asset: assets[r.Intn(len(assets))], Source: sources[r.Intn(len(sources))]}
 		if h.Kind == "collide" && r.Chance(45) { // stay inside one colliding family
 			f.Asset = assets[r.Intn(6)]
